@@ -68,10 +68,24 @@ FATALS = [("fat1.c", "#foo bar\nint\tmain(void)\n{\n\treturn (0);\n}\n"),
 def pool(spec):
     rng = random.Random("c06/%s/%d" % (spec["seed"], spec["shard"]))
     files = {"conf": [], "viol": [], "fatal": list(FATALS), "amp": amplifiers(), "h": []}
+    siblings = []      # (file, sibling with the same name and other content)
     for p, tag in pipework.base_programs({"seed": spec["seed"], "shard": 300 + spec["shard"], "n": spec["n"]}):
         (files["h"] if p.ftype == "h" else files["conf"]).append((p.name, p.text()))
         for q, o, _ in pipework.sampled_variants(p, rng, 2):
             files["viol"].append((q.name, q.text()))
+            siblings.append(((p.name, p.text()), (q.name, q.text())))
+        # same name, same line numbers, one of them with a too-long line / a changed guard: anything the tool
+        # remembers per file *name* (or per macro, per line number) across files becomes observable
+        for q, o, _ in pipework.variants(p, rng, per_op=1, ops=[x for x in pipework.viol.OPS if x["id"] in ("V71a", "V43", "V01")]):
+            siblings.append(((p.name, p.text()), (q.name, q.text())))
+        if p.ftype == "h":
+            from nv.checks import c14
+            for vname, q, expect in c14.variants(p, p.meta["guard"], rng):
+                if vname in ("define_removed", "other_symbol", "lower_case", "second_guard"):
+                    siblings.append(((p.name, p.text()), (q.name, q.text())))
+                    # and the guard symbol defined by a file of another name
+                    siblings.append((("other.c", "#define %s 1\n" % p.meta["guard"]), (q.name, q.text())))
+    files["siblings"] = siblings
     return files, rng
 
 
@@ -117,6 +131,30 @@ def snapshot():
                 continue
             attrs[cls.__name__ + "." + k] = repr(v)[:200]
     snap["rule_class_attrs"] = attrs
+    # mutable default arguments and mutable class attributes anywhere in the package
+    import inspect
+    defaults = {}
+    cattrs = {}
+    for mname, mod in list(sys.modules.items()):
+        if not mname.startswith("norminette") or mod is None:
+            continue
+        for cname, cls in list(vars(mod).items()):
+            objs = []
+            if inspect.isfunction(cls) and cls.__module__ == mname:
+                objs.append((cname, cls))
+            elif inspect.isclass(cls) and cls.__module__ == mname:
+                for k, v in list(vars(cls).items()):
+                    f = v.__func__ if isinstance(v, (classmethod, staticmethod)) else v
+                    if inspect.isfunction(f):
+                        objs.append((cname + "." + k, f))
+                    elif isinstance(v, (list, dict, set)) and not k.startswith("__"):
+                        cattrs[mname + "." + cname + "." + k] = repr(v)[:300]
+            for oname, f in objs:
+                for d in (f.__defaults__ or ()) + tuple((f.__kwdefaults__ or {}).values()):
+                    if isinstance(d, (list, dict, set)):
+                        defaults[mname + "." + oname] = repr(d)[:300]
+    snap["mutable_defaults"] = defaults
+    snap["class_level_containers"] = cattrs
     return snap
 
 
@@ -158,6 +196,7 @@ def run_histories(spec):
         # the fixed files are the same in every shard: a few shards take them as targets (with their own histories)
         targets += files["fatal"] + files["amp"]
     refs = reference(targets)
+    siblings = files.pop("siblings")
     allfiles = [f for k in files for f in files[k]]
     classes = {k: files[k] for k in files}
     base_snap = snapshot()
@@ -197,6 +236,40 @@ def run_histories(spec):
             check([rng.choice(allfiles) for _ in range(rng.randint(2, 12 if spec["tier"] == "thorough" else 8))], "random_history")
         u = rng.choice(allfiles)
         check([(name, src), u], "interleaved")
+    # sibling pairs: each one analysed right after the other, both ways
+    if spec["tier"] == "thorough":
+        sib = siblings
+    else:
+        hs = [x for x in siblings if x[1][0].endswith(".h")]
+        cs = [x for x in siblings if not x[1][0].endswith(".h")]
+        sib = hs[:12] + cs[:10]
+    flat = [f for pair in sib for f in pair]
+    uniq = []
+    for f in flat:
+        if f not in uniq:
+            uniq.append(f)
+    srefs = dict(zip([u[0] + "\0" + u[1] for u in uniq], reference(uniq)))
+    for a, b in sib:
+        for first, second in ((a, b), (b, a)):
+            ref = srefs.get(second[0] + "\0" + second[1])
+            if ref is None:
+                continue
+            ACTIVE[0] = True
+            try:
+                obs_now(first[0], first[1])
+                got = obs_now(second[0], second[1])
+            finally:
+                ACTIVE[0] = False
+            sh.case("sibling\0" + first[1] + "\0" + second[1], nontrivial=True)
+            sh.count("c06.observation_equals_reference")
+            sh.tally("histories", "after_same_name_sibling")
+            if got != ref:
+                d = {"label": "after_same_name_sibling", "target": second[0], "history": [first[0]],
+                     "reference": ref[:2] + [(ref[2] or [])[:3]], "got": got[:2] + [(got[2] or [])[:3]],
+                     "only_reference": [x for x in (ref[2] or []) if x not in (got[2] or [])][:3],
+                     "only_got": [x for x in (got[2] or []) if x not in (ref[2] or [])][:3]}
+                sh.violation("history_changes_observation", ("sibling", second[0][-2:], str(got[0]), str(ref[0])),
+                             {"mode": "history", "history": [list(first)], "target": list(second), "reference": ref}, d)
     end_snap = snapshot()
     leaks = snap_diff(base_snap, end_snap)
     for l in leaks:
